@@ -566,6 +566,34 @@ pub fn new_engine(g: &Graph, kind: SchedulerKind, workers: usize) -> Engine {
 /// Runs one tick on a fresh engine: applies `enq` in order, commits.
 pub fn run_tick(g: &Graph, kind: SchedulerKind, workers: usize, enq: &[Req], script: Option<Vec<usize>>) -> TickOutcome {
     let mut engine = new_engine(g, kind, workers);
+    run_tick_on(&mut engine, g, enq, script)
+}
+
+/// Two ticks on ONE long-lived engine (`warm`, then `enq`), and the second tick again on a fresh engine built from a
+/// clone of the state the first tick left: a tick's outcome must be a function of its pre-tick state and candidate set,
+/// not of what earlier ticks of the same engine admitted (recycled scheduler state, caches).  Returns None when the
+/// warm tick does not commit.  The commit id legitimately differs (the long-lived engine chains to the first commit),
+/// so callers compare receipts, post-states, roots and the digests of the result line other than `commit=`.
+pub fn run_warm_then(g: &Graph, kind: SchedulerKind, workers: usize, warm: &[Req], enq: &[Req]) -> Option<(TickOutcome, TickOutcome)> {
+    let mut engine = new_engine(g, kind, workers);
+    let first = run_tick_on(&mut engine, g, warm, None);
+    if first.result.is_err() {
+        return None;
+    }
+    let g1 = Graph { state: engine.state().clone(), root: g.root, warps: g.warps.clone(), parents: g.parents.clone() };
+    let long_lived = run_tick_on(&mut engine, &g1, enq, None);
+    let fresh = run_tick(&g1, kind, workers, enq, None);
+    Some((long_lived, fresh))
+}
+
+/// the result line without its `commit=` field
+pub fn sans_commit(r: &Result<String, String>) -> Result<String, String> {
+    r.clone().map(|l| l.split(' ').filter(|t| !t.starts_with("commit=")).collect::<Vec<_>>().join(" "))
+}
+
+/// One tick on the given engine (`g` supplies the pre-tick state for the replay check, the instance list and the
+/// descent chains).
+pub fn run_tick_on(engine: &mut Engine, g: &Graph, enq: &[Req], script: Option<Vec<usize>>) -> TickOutcome {
     let tx = engine.begin();
     let use_descent = USE_DESCENT_STACK.load(std::sync::atomic::Ordering::Relaxed);
     for (r, w, n) in enq {
